@@ -49,27 +49,16 @@ def run(ctx):
         ctx.violation(f"spec:{v.name}", {"config": consts, "trace": [(h, s) for h, s in v.trace]})
     if res.violations:
         return
-    small = {"MaxLen": 3, "Sizes": "{1, 2}", "ByteLims": "{2, 3, 4}", "CountLims": "{1, 2}"}
-    for inv in REACH:  # reachability companions: each must be violated, else the invariants above are vacuous
-        (wd / "Reach.cfg").write_text(tlc.mk_cfg(constants=small, invariants=[inv]))
-        r = tlc.run(wd, "BunchingAlg", "Reach.cfg", workers=4)
-        if not r.violations:
-            raise RuntimeError(f"vacuous: {inv} is never violated")
+    _fn.require_reachable(ctx, wd, "BunchingAlg", {"MaxLen": 3, "Sizes": "{1, 2}", "ByteLims": "{2, 3, 4}", "CountLims": "{1, 2}"}, REACH)
 
     # ---- (2) B3 on the real function ------------------------------------------------------------------------
     if ctx.quick:
-        universes = [(5, 3, 7, 3)]
+        universes = [(5, 3, 6, 3)]
     else:
         universes = [(6, 3, 9, 4), (5, 4, 8, 3)]
-    inputs = []
-    seen = set()
-    for n, (a, b, c, d) in enumerate(universes):
-        env = {"BU_MAXLEN": a, "BU_MAXSIZE": b, "BU_MAXBYTES": c, "BU_MAXCOUNT": d, "BU_INPUTS": wd / f"inputs{n}.ndjson"}
-        tlc.evaluate(wd, "BunchingGen", env=env, timeout=1800)
-        for l in (wd / f"inputs{n}.ndjson").read_text().splitlines():
-            if l.strip() and l not in seen:
-                seen.add(l)
-                inputs.append(json.loads(l))
+    (wd / "params.ndjson").write_text("".join(json.dumps({"maxlen": a, "maxsize": b, "maxbytes": c, "maxcount": d}) + "\n" for a, b, c, d in universes))
+    tlc.evaluate(wd, "BunchingGen", env={"BU_PARAMS": wd / "params.ndjson", "BU_INPUTS": wd / "inputs.ndjson"}, timeout=1800)
+    inputs = [json.loads(l) for l in dict.fromkeys((wd / "inputs.ndjson").read_text().splitlines()) if l.strip()]  # order kept, repeats dropped
 
     batch = object.__new__(Batch)
     dumps = aioclient.orjson.dumps
